@@ -76,3 +76,58 @@ def relayout(w, rng, fillers=LAYOUT_FILLERS, density=1.0):
 
 def has_overlap(g):
     return any(g.tdefs[t].kind != "str" or g.tdefs[t].text != t or len(t) != 1 for t in g.terms)
+
+
+def missing_valid_action(g, pg, table, ref=None):
+    """Lock-step walk of a real table and the canonical LR(1) automaton of the
+    reference grammar: the first (state, lookahead) whose canonical action the
+    table lacks, as a message, or None.  For a reduced grammar every canonical
+    action is used by some sentence, so a missing one means a rejected sentence."""
+    from parglare.tables import ACCEPT, SHIFT
+
+    from pgverif import pgx
+
+    ref = ref or cfg.LR1(g, g.start)
+    pkeys = pgx.prod_keys(pg)
+    pindex = {k: i for i, k in enumerate(g.prods)}
+
+    def pacts(ps):
+        out = {}
+        for t, al in ps.actions.items():
+            tn = "$" if t.name == "STOP" else t.name
+            for a in al:
+                if a.action == SHIFT:
+                    out.setdefault(tn, set()).add(("s",))
+                elif a.action == ACCEPT:
+                    out.setdefault(tn, set()).add(("acc",))
+                else:
+                    out.setdefault(tn, set()).add(("r", pindex.get(pkeys[a.prod.prod_id], -99)))
+        return out
+
+    seen = set()
+    work = [(table.states[0], 0)]
+    while work:
+        ps, ls = work.pop()
+        if (ps.state_id, ls) in seen:
+            continue
+        seen.add((ps.state_id, ls))
+        pa = pacts(ps)
+        for t, v in ref.acts[ls].items():
+            if not v <= pa.get(t, set()):
+                lack = sorted(v - pa.get(t, set()))[0]
+                what = "reduction by %s: %s" % (g.prods[lack[1]][0], " ".join(g.prods[lack[1]][1]) or "EMPTY") if lack[0] == "r" else {"s": "shift", "acc": "accept"}[lack[0]]
+                return "state %d on lookahead %s: the canonical LR(1) automaton has a %s here, the table has %s" % (ps.state_id, t, what, sorted(pa.get(t, set())))
+        for (s0, sym), tgt in ref.trans.items():
+            if s0 != ls:
+                continue
+            if cfg.is_nt(sym):
+                nt = pg.get_nonterminal(sym)
+                if nt not in ps.gotos:
+                    return "state %d has no goto on %s" % (ps.state_id, sym)
+                work.append((ps.gotos[nt], tgt))
+            else:
+                sh = [a for a in ps.actions.get(pg.get_terminal(sym), []) if a.action == SHIFT]
+                if not sh:
+                    return "state %d has no shift on %s" % (ps.state_id, sym)
+                work.append((sh[0].state, tgt))
+    return None
